@@ -900,32 +900,91 @@ func orderSensitive(p *core.Program, rl rangeLoop) []string {
 	return reasons
 }
 
-// sortedBeforeUse: the slice value appended to inside the loop is handed to a
-// sort function before any other use after the loop.
+// appendIsSortedLater: the slice appended to at position appendPos inside the
+// loop flows (through the loop-carried variable) into a sort call.
 func appendIsSortedLater(rl rangeLoop, appendPos string, p *core.Program) bool {
 	f := rl.fn
-	// find sort calls in the function after the loop (not in the body)
-	for _, b := range f.Blocks {
-		if rl.body[b] {
-			continue
+	want := strings.TrimPrefix(appendPos, "append:")
+	isSort := func(ci ssa.CallInstruction) bool {
+		pk := core.CalleePkgPath(ci.Common())
+		name := core.MethodNameOf(ci.Common())
+		if (pk == "sort" && (name == "Slice" || name == "SliceStable" || name == "Strings" || name == "Sort" || name == "Stable" || name == "Ints")) ||
+			(pk == "slices" && strings.HasPrefix(name, "Sort")) {
+			return true
 		}
+		return name == "Sort" || name == "SortStable"
+	}
+	for b := range rl.body {
 		for _, in := range b.Instrs {
-			ci, ok := in.(ssa.CallInstruction)
-			if !ok {
+			call, ok := in.(*ssa.Call)
+			if !ok || p.Pos(in.Pos()) != want {
 				continue
 			}
-			pk := core.CalleePkgPath(ci.Common())
-			name := core.MethodNameOf(ci.Common())
-			if (pk == "sort" && (name == "Slice" || name == "SliceStable" || name == "Strings" || name == "Sort" || name == "Stable" || name == "Ints")) ||
-				(pk == "slices" && strings.HasPrefix(name, "Sort")) {
+			if bi, ok := call.Call.Value.(*ssa.Builtin); !ok || bi.Name() != "append" {
+				continue
+			}
+			sorted := false
+			core.ForwardUses(call, func(u ssa.Instruction, _ ssa.Value) {
+				if ci, ok := u.(ssa.CallInstruction); ok && isSort(ci) && !rl.body[u.Block()] {
+					sorted = true
+				}
+			})
+			if sorted {
 				return true
 			}
-			if name == "Sort" || name == "SortStable" {
-				return true
+			// the slice may live in a local variable (alloc) that is sorted after the loop
+			if st := storeOfValue(call); st != nil {
+				for _, bb := range f.Blocks {
+					if rl.body[bb] {
+						continue
+					}
+					for _, x := range bb.Instrs {
+						ci, ok := x.(ssa.CallInstruction)
+						if !ok || !isSort(ci) {
+							continue
+						}
+						for _, a := range ci.Common().Args {
+							for _, leaf := range core.Leaves(a, core.SliceOpts{}) {
+								if leaf == st {
+									sorted = true
+								}
+							}
+							if ld, ok := a.(*ssa.UnOp); ok && ld.X == st {
+								sorted = true
+							}
+							if mi, ok := a.(*ssa.MakeInterface); ok {
+								if ld, ok := mi.X.(*ssa.UnOp); ok && ld.X == st {
+									sorted = true
+								}
+								if ct, ok := mi.X.(*ssa.ChangeType); ok {
+									if ld, ok := ct.X.(*ssa.UnOp); ok && ld.X == st {
+										sorted = true
+									}
+								}
+							}
+						}
+					}
+				}
+				if sorted {
+					return true
+				}
 			}
 		}
 	}
 	return false
+}
+
+// storeOfValue: the address the value is stored to, if it is stored to a local/field cell.
+func storeOfValue(v ssa.Value) ssa.Value {
+	if v.Referrers() == nil {
+		return nil
+	}
+	for _, r := range *v.Referrers() {
+		if st, ok := r.(*ssa.Store); ok && st.Val == v {
+			return st.Addr
+		}
+	}
+	return nil
 }
 
 func checkMapRanges(c *Ctx, reach *core.Reach) {
